@@ -486,6 +486,28 @@ Proof.
          end; injection E as <-; reflexivity.
 Qed.
 
+Lemma exec_op_sub checksig ripemd160 sha1 sha256 fl op rest r r' :
+  match ref_kind op with KCodesep => False | _ => True end ->
+  exec_op checksig ripemd160 sha1 sha256 fl op rest r = Some r' -> r_sub r' = r_sub r.
+Proof.
+  intros P E. unfold exec_op in E. destruct r as [st al vf sub nop]. cbn [r_stack r_alt r_vf r_sub r_nop] in *.
+  destruct (ref_kind op); try contradiction; cbn [with_stack r_stack r_alt r_vf r_sub r_nop] in E; try discriminate E;
+  repeat match type of E with
+         | context [match ?c with _ => _ end] => destruct c eqn:?; try discriminate E
+         end; injection E as <-; reflexivity.
+Qed.
+Lemma exec_op_nop_le checksig ripemd160 sha1 sha256 fl op rest r r' : r_nop r <= 201 ->
+  exec_op checksig ripemd160 sha1 sha256 fl op rest r = Some r' -> r_nop r' <= 201.
+Proof.
+  intros H E. destruct (ref_kind op) eqn:K;
+    try (rewrite (exec_op_nop _ _ _ _ _ op rest r r') by (try rewrite K; try exact I; exact E); exact H).
+  unfold exec_op in E. rewrite K in E. destruct r as [st al vf sub nop]. cbn [r_stack r_alt r_vf r_sub r_nop] in *.
+  repeat match type of E with
+         | context [match ?c with _ => _ end] => destruct c eqn:?; try discriminate E
+         end; injection E as <-; cbn [r_nop with_stack];
+  match goal with H : (_ >? 201) = false |- _ => rewrite Z.gtb_ltb in H; apply Z.ltb_ge in H; exact H end.
+Qed.
+
 (* ================= one loop iteration, then the loop ================= *)
 Section Loop.
 Variable checksig : bytes -> bytes -> bytes -> bool.
@@ -584,6 +606,120 @@ Proof.
     + rewrite LIM. cbn [r_stack r_alt r1].
       destruct (Z.gtb_spec (lenZ st + lenZ al) 1000); [reflexivity|].
       split; [exists pb; reflexivity|]. apply INV; [split; assumption|exact Hn|subst r1; cbn [r_stack r_alt]; lia].
+Qed.
+
+Definition is_sig (k : kind) : bool := match k with KChecksig _ | KMultisig _ => true | _ => false end.
+Lemma plain_or_sig k : plain k = true \/ is_sig k = true \/ k = KCodesep.
+Proof. destruct k; cbn; auto. Qed.
+
+(* one iteration, every opcode; the two signature classes are supplied by the caller
+   (they need the code position, Proofs/ScriptSig.v) *)
+Lemma step_sim_gen (Q : Prop) scriptIn r pb op d idx rest code :
+  Spec.Script.get_op code = Ok (op, d, rest) -> inv r ->
+  (forall r1 k, is_sig k = true -> ref_kind op = k ->
+     r_stack r1 = r_stack r -> r_alt r1 = r_alt r -> r_vf r1 = r_vf r -> r_sub r1 = r_sub r ->
+     sim1 (exec checksig ripemd160 sha1 sha256 fl scriptIn (abs r1 pb) (mk_sop op d idx) k) (exec_op op rest r1) pb \/
+     (Q /\ exists e, exec checksig ripemd160 sha1 sha256 fl scriptIn (abs r1 pb) (mk_sop op d idx) k = Err e /\ is_script_err e = true)) ->
+  (Q /\ exists e, step scriptIn (abs r pb) (mk_sop op d idx) = Err e /\ is_script_err e = true) \/
+  match ref_step op d rest r with
+  | Some r' => inv r' /\
+      ((step scriptIn (abs r pb) (mk_sop op d idx) = Ok (abs r' pb) /\ r_sub r' = r_sub r) \/
+       (step scriptIn (abs r pb) (mk_sop op d idx) = Ok (abs r' idx) /\ r_sub r' = rest /\ ref_kind op = KCodesep))
+  | None => step scriptIn (abs r pb) (mk_sop op d idx) = Err EvalErr
+  end.
+Proof.
+  intros G (S2 & S3 & Sn) HSIG. apply get_op_ok in G as [_ W]. unfold op_wf in W.
+  destruct r as [st al vf sub nop]. destruct S2 as [Sa Sb]. cbn [r_stack r_alt r_vf r_sub r_nop] in *.
+  unfold step, ref_step, abs. cbn [sop_opcode sop_data sop_idx stack altstack vfExec pbegincodehash nOpCount r_stack r_alt r_vf r_sub r_nop].
+  change OP_16 with 0x60. change OP_PUSHDATA4 with 0x4e. change MAX_SCRIPT_ELEMENT_SIZE with 520.
+  change MAX_STACK_ITEMS with 1000. change MAX_SCRIPT_OPCODES with 201. change OP_IF with 0x63. change OP_ENDIF with 0x68.
+  assert (Hop : 0 <= op < 256) by (destruct d; lia).
+  rewrite disabled_ok by exact Hop. rewrite check_exec_rev.
+  destruct d as [data|].
+  - (* a push operation *)
+    destruct W as (Hop' & _). rewrite disabled_push by lia. cbn [bind].
+    destruct (Z.gtb_spec op 0x60); [lia|]. cbn [bind].
+    destruct (Z.gtb_spec nop 201); [lia|].
+    destruct (Z.leb_spec op 0x4e); [|lia].
+    destruct (Z.gtb_spec (lenZ data) 520) as [Hd|Hd]; [right; reflexivity|].
+    destruct (forallb (fun b => b) vf); cbn [bind set_stack with_stack stack altstack vfExec pbegincodehash nOpCount r_stack r_alt r_vf r_sub r_nop].
+    + rewrite push_rev, !lenZ_rev.
+      destruct (Z.gtb_spec (lenZ (data :: st) + lenZ al) 1000); [right; reflexivity|]. right.
+      split; [|left; split; reflexivity]. repeat split; cbn [with_stack r_stack r_alt r_nop]; try assumption.
+      * constructor; [unfold small; lia|assumption].
+      * pose proof (Zle_0_nat (length al)). unfold lenZ in *. lia.
+    + rewrite !lenZ_rev. destruct (Z.gtb_spec (lenZ st + lenZ al) 1000); [right; reflexivity|]. right.
+      split; [|left; split; reflexivity]. repeat split; cbn [r_stack r_alt r_nop]; assumption.
+  - (* a non-push opcode *)
+    change (lenZ (@nil byte)) with 0. destruct (Z.gtb_spec 0 520); [lia|].
+    destruct (Z.leb_spec op 0x4e); [lia|].
+    destruct (disabled op) eqn:DIS.
+    { right. cbn [bind]. destruct (_ >? 201); reflexivity. }
+    cbn [bind].
+    set (nop' := if op >? 96 then nop + 1 else nop).
+    assert (CNT : (if op >? 96 then
+                     if nop + 1 >? 201 then @fail state
+                     else Ok {| stack := rev st; altstack := rev al; vfExec := rev vf; pbegincodehash := pb; nOpCount := nop + 1 |}
+                   else Ok {| stack := rev st; altstack := rev al; vfExec := rev vf; pbegincodehash := pb; nOpCount := nop |})
+                  = if nop' >? 201 then Err EvalErr
+                    else Ok (abs {| r_stack := st; r_alt := al; r_vf := vf; r_sub := sub; r_nop := nop' |} pb)).
+    { subst nop'. destruct (op >? 96); [destruct (nop + 1 >? 201); reflexivity|].
+      destruct (Z.gtb_spec nop 201); [lia|reflexivity]. }
+    rewrite CNT. clear CNT. destruct (Z.gtb_spec nop' 201) as [Hn|Hn]; [right; reflexivity|]. cbn [bind].
+    set (r1 := {| r_stack := st; r_alt := al; r_vf := vf; r_sub := sub; r_nop := nop' |}).
+    assert (I1 : small2 r1 /\ lenZ (r_stack r1) < 2^31) by (repeat split; assumption).
+    assert (LIM : forall r2 pb', (do s' <- Ok (abs r2 pb'); if len (stack s') + len (altstack s') >? 1000 then @fail state else Ok s')
+                   = if lenZ (r_stack r2) + lenZ (r_alt r2) >? 1000 then Err EvalErr else Ok (abs r2 pb')).
+    { intros r2 pb'. cbn [bind]. unfold abs. cbn [stack altstack]. now rewrite !lenZ_rev. }
+    assert (INV : forall r2, small2 r2 -> r_nop r2 <= 201 -> lenZ (r_stack r2) + lenZ (r_alt r2) <= 1000 -> inv r2).
+    { intros r2 A B C. split; [exact A|]. split; [|exact B]. pose proof (Zle_0_nat (length (r_alt r2))). unfold lenZ in *. lia. }
+    destruct (forallb (fun b => b) vf || ((99 <=? op) && (op <=? 104))) eqn:EX.
+    + rewrite kind_ok by exact Hop.
+      (* every class except CODESEPARATOR goes through a sim1 fact *)
+      assert (GEN : ref_kind op <> KCodesep ->
+                (sim1 (exec checksig ripemd160 sha1 sha256 fl scriptIn (abs r1 pb) (mk_sop op None idx) (ref_kind op)) (exec_op op rest r1) pb \/
+                 (Q /\ exists e, exec checksig ripemd160 sha1 sha256 fl scriptIn (abs r1 pb) (mk_sop op None idx) (ref_kind op) = Err e /\ is_script_err e = true)) ->
+                (Q /\ exists e, (do s' <- exec checksig ripemd160 sha1 sha256 fl scriptIn (abs r1 pb) (mk_sop op None idx) (ref_kind op);
+                       if len (stack s') + len (altstack s') >? 1000 then fail else Ok s') = Err e /\ is_script_err e = true) \/
+                match
+                  match exec_op op rest r1 with
+                  | Some s' => if lenZ (r_stack s') + lenZ (r_alt s') >? 1000 then None else Some s'
+                  | None => None
+                  end
+                with
+                | Some r' => inv r' /\
+                    (((do s' <- exec checksig ripemd160 sha1 sha256 fl scriptIn (abs r1 pb) (mk_sop op None idx) (ref_kind op);
+                       if len (stack s') + len (altstack s') >? 1000 then fail else Ok s') = Ok (abs r' pb) /\ r_sub r' = sub) \/
+                     ((do s' <- exec checksig ripemd160 sha1 sha256 fl scriptIn (abs r1 pb) (mk_sop op None idx) (ref_kind op);
+                       if len (stack s') + len (altstack s') >? 1000 then fail else Ok s') = Ok (abs r' idx) /\ r_sub r' = rest /\ ref_kind op = KCodesep))
+                | None => (do s' <- exec checksig ripemd160 sha1 sha256 fl scriptIn (abs r1 pb) (mk_sop op None idx) (ref_kind op);
+                           if len (stack s') + len (altstack s') >? 1000 then fail else Ok s') = Err EvalErr
+                end).
+      { intros NC [SIM|(HQ & e & EE & SE)]; [right|left; split; [exact HQ|exists e; rewrite EE; split; [reflexivity|exact SE]]].
+        unfold sim1 in SIM. destruct (exec_op op rest r1) as [r2|] eqn:EO.
+        - rewrite SIM, LIM. destruct (Z.gtb_spec (lenZ (r_stack r2) + lenZ (r_alt r2)) 1000); [reflexivity|].
+          split.
+          + apply INV; [exact (exec_op_small checksig ripemd160 sha1 sha256 fl rest hash_small op rest r1 r2 Hop (proj1 I1) (proj2 I1) EO)| |lia].
+            apply (exec_op_nop_le checksig ripemd160 sha1 sha256 fl op rest r1 r2 Hn EO).
+          + left. split; [reflexivity|].
+            rewrite (exec_op_sub checksig ripemd160 sha1 sha256 fl op rest r1 r2); [reflexivity| |exact EO].
+            destruct (ref_kind op); try exact I. congruence.
+        - rewrite SIM. reflexivity. }
+      destruct (plain_or_sig (ref_kind op)) as [P|[P|P]].
+      * apply GEN; [intros C; rewrite C in P; discriminate P|]. left.
+        exact (exec_sim_plain checksig ripemd160 sha1 sha256 fl scriptIn pb (mk_sop op None idx) rest Hop r1 (ref_kind op)
+                 (conj (proj1 (proj1 I1)) (conj (proj2 (proj1 I1)) (proj2 I1))) P eq_refl).
+      * apply GEN; [intros C; rewrite C in P; discriminate P|]. apply HSIG; try reflexivity. exact P.
+      * (* CODESEPARATOR *)
+        right. rewrite P.
+        destruct (sim_codesep checksig ripemd160 sha1 sha256 fl scriptIn pb (mk_sop op None idx) rest r1 P) as [E1 E2].
+        cbn [sop_opcode sop_idx] in E1, E2. rewrite E1, E2, LIM. cbn [r_stack r_alt r1].
+        destruct (Z.gtb_spec (lenZ st + lenZ al) 1000); [reflexivity|].
+        split; [apply INV; [split; assumption|exact Hn|cbn [r_stack r_alt]; lia]|].
+        right. repeat split; reflexivity.
+    + right. rewrite LIM. cbn [r_stack r_alt r1].
+      destruct (Z.gtb_spec (lenZ st + lenZ al) 1000); [reflexivity|].
+      split; [apply INV; [split; assumption|exact Hn|subst r1; cbn [r_stack r_alt]; lia]|left; split; reflexivity].
 Qed.
 
 Lemma get_op_shorter code op d rest : Spec.Script.get_op code = Ok (op, d, rest) -> (length rest < length code)%nat.
